@@ -29,7 +29,7 @@ structure CompOK (W : World) (AE : List Ev) : Prop where
   sorted : (AE.map evVid).Pairwise (· < ·)
   vmem : ∀ w, (W.comp.vertex? w).isSome → Ev.vtx w ∈ AE
   fmem : ∀ f ∈ W.comp.folds, Ev.fold f.eid ∈ AE ∧ f.toVid = f.eid + 1
-  fk : FKAllF W W.comp.folds
+  fk : FKAllF W.FK W.comp.folds
 
 /-- A reference compiled for a filter evaluated when the events `L` are recorded and `cur` is being
 processed. -/
